@@ -21,8 +21,11 @@ class ToolError(Exception):
     pass
 
 
+_T0 = time.time()
+
+
 def log(*a):
-    print("[check]", *a, file=sys.stderr, flush=True)
+    print("[check %4ds]" % (time.time() - _T0), *a, file=sys.stderr, flush=True)
 
 
 def load_known():
@@ -132,6 +135,8 @@ MCInner == {tla_val(set(c['inner']))}
     cfg.append('  Mut = "%s"' % c.get("mut", "none"))
     cfg.append("  Prefix = %s" % tla_val(bool(c.get("prefix", False))))
     cfg += ["SPECIFICATION Spec", "VIEW view", "CHECK_DEADLOCK FALSE", "INVARIANT NoViolation"]
+    if "C07" in check:
+        cfg.append("INVARIANT NoStuck")
     if emit == "terminal":
         cfg.append("INVARIANT Emit")
     if emit == "edge":
